@@ -174,13 +174,12 @@ func keyForm(v ssa.Value, isKey func(ssa.Value) bool, use *ssa.BasicBlock, depth
 			}
 			guarded := false
 			for _, fa := range factsIncludingOwn(use) {
-				g, isCall := fa.Cond.(*ssa.Call)
-				if !isCall || !fa.Truth || !IsCallTo(g, want) {
+				garg, gc, gname, isP := prefixFact(fa)
+				if !isP || !fa.Truth || gname != want {
 					continue
 				}
-				gc, gIsC := ConstString(g.Call.Args[1])
-				gf, _ := keyForm(g.Call.Args[0], isKey, use, depth+1)
-				if gIsC && gc == c && gf == f {
+				gf, _ := keyForm(garg, isKey, use, depth+1)
+				if gc == c && gf == f {
 					guarded = true
 				}
 			}
@@ -1055,20 +1054,19 @@ type condForm struct {
 func guardStrings(fs []Fact, isKey func(ssa.Value) bool, use *ssa.BasicBlock) []string {
 	var out []string
 	for _, f := range fs {
-		call, ok := f.Cond.(*ssa.Call)
-		if !ok || !IsCallTo(call, "strings.HasPrefix", "strings.HasSuffix") {
+		arg, c, name, ok := prefixFact(f)
+		if !ok {
 			continue
 		}
-		c, isC := ConstString(call.Call.Args[1])
-		kf, kok := keyForm(call.Call.Args[0], isKey, use, 0)
-		if !isC || !kok {
+		kf, kok := keyForm(arg, isKey, use, 0)
+		if !kok {
 			continue
 		}
 		truth := "false"
 		if f.Truth {
 			truth = "true"
 		}
-		out = append(out, CalleeName(call)+"("+kf+","+quote(c)+")="+truth)
+		out = append(out, name+"("+kf+","+quote(c)+")="+truth)
 	}
 	return out
 }
@@ -1201,4 +1199,28 @@ func clearedByEarlierLoop(fn *ssa.Function, add HeaderMutation) bool {
 		}
 	}
 	return false
+}
+
+// prefixFact: the branch fact tests whether a string has a constant prefix (or
+// suffix): strings.HasPrefix(x, c), or the ok result of strings.CutPrefix(x, c).
+func prefixFact(f Fact) (arg ssa.Value, c string, fn string, ok bool) {
+	switch x := f.Cond.(type) {
+	case *ssa.Call:
+		if IsCallTo(x, "strings.HasPrefix", "strings.HasSuffix") {
+			if cs, isC := ConstString(x.Call.Args[1]); isC {
+				return x.Call.Args[0], cs, CalleeName(x), true
+			}
+		}
+	case *ssa.Extract:
+		if call, isCall := x.Tuple.(*ssa.Call); isCall && x.Index == 1 && IsCallTo(call, "strings.CutPrefix", "strings.CutSuffix") {
+			if cs, isC := ConstString(call.Call.Args[1]); isC {
+				name := "strings.HasPrefix"
+				if IsCallTo(call, "strings.CutSuffix") {
+					name = "strings.HasSuffix"
+				}
+				return call.Call.Args[0], cs, name, true
+			}
+		}
+	}
+	return nil, "", "", false
 }
